@@ -108,6 +108,9 @@ Definition check_eng (prop : Z) (inp impl : sx) : sx :=
             else if prop =? 3 then (if shapeb first last acc hops then [] else [3])
             else if (prop =? 7) || (prop =? 4) then
               (if negb (merge_specb acc hops && (Z.of_nat (length hops) <=? last - first + 1)) then [7]
+               (* the list is the function of the accepted replies that the merge rule and the path shape define: it ends at the
+                  LOWEST TTL the destination answered, whatever the order the replies were read in *)
+               else if (prop =? 7) && negb (shapeb first last acc hops) then [7; 4]
                else if negb serial && (cancel_at =? 0) && negb (accepted_completeb p script sends acc) then [7; 2] else [])
             else if prop =? 2 then (if negb serial && (cancel_at =? 0) && negb (accepted_completeb p script sends acc) then [2; 3] else [])
             else if prop =? 8 then (if elapsed_okb serial p elapsed then [] else [8])
